@@ -240,7 +240,7 @@ class Explorer:
         if summary(again) != summary(r):
             print('MACHINERY-ERROR: history %r is not reproducible: first %r, second %r' % (line, summary(r), summary(again)))
             sys.exit(2)
-        obj = {'kind': 'history', 'mode': self.mode, 'history': line, 'described': describe(line) if describe else line,
+        obj = {'kind': 'history', 'key': key, 'mode': self.mode, 'history': line, 'described': describe(line) if describe else line,
                'observed': {'steps': r['steps'], 'mismatches': r['x'], 'crash': crash_class(r, self.h, self.mode, line)},
                'replay_module': self.module, 'how_to_replay': 'bin/check replay <this file>'}
         obj.update(extra or {})
